@@ -293,11 +293,52 @@ func ZZC16Cases() {
 	if err != nil {
 		return
 	}
+	// the rule maps handed out are separate objects: writing to one of them (they are public ordered
+	// maps) must not show in another rule, nor in the AST of another schema object
+	var maps []*jlib.RuleASTNodes
+	c16CollectMaps(ast, &maps)
+	other, oerr := jschema.New("o", `5 // {min: 1, max: 9}`).GetAST()
+	if oerr == nil {
+		c16CollectMaps(other, &maps)
+	}
+	for i := range maps {
+		for j := 0; j < i; j++ {
+			v.Assert(maps[i] != maps[j], "C16/ast-rule-maps-shared")
+		}
+	}
+	if len(maps) > 1 {
+		maps[0].Set("zzprobe", jlib.RuleASTNode{Value: "x"})
+		for _, m := range maps[1:] {
+			v.Assert(!m.Has("zzprobe"), "C16/ast-rule-maps-shared")
+		}
+		maps[0].Delete("zzprobe")
+	}
 	js, jerr := jsonMarshal(ast)
 	v.Assert(jerr == nil, "C16/marshal-error")
 	v.Observe("ast", js)
 	v.Assert(string(js) == c.want, "C16/ast-differs-from-expected")
 	v.Reach("C16/cases")
+}
+
+// c16CollectMaps gathers every ordered map reachable from an AST (node rules, rule properties, nested items).
+func c16CollectMaps(a jlib.ASTNode, out *[]*jlib.RuleASTNodes) {
+	var rule func(r jlib.RuleASTNode)
+	rule = func(r jlib.RuleASTNode) {
+		if r.Properties != nil {
+			*out = append(*out, r.Properties)
+			r.Properties.EachSafe(func(_ string, x jlib.RuleASTNode) { rule(x) })
+		}
+		for _, it := range r.Items {
+			rule(it)
+		}
+	}
+	if a.Rules != nil {
+		*out = append(*out, a.Rules)
+		a.Rules.EachSafe(func(_ string, r jlib.RuleASTNode) { rule(r) })
+	}
+	for _, c := range a.Children {
+		c16CollectMaps(c, out)
+	}
 }
 
 func init() { ZZHarnesses["ZZC16Cases"] = ZZC16Cases }
